@@ -423,6 +423,10 @@ class CongestionMonitor(netsim.Monitor):
         self.pto_seen = {"c": 0, "s": 0}
         self.before = {}
         self.early_probe = {}
+        from . import seams
+
+        seams.watch_delivery_handlers()
+        del seams.DELIVERED_TWICE[:]
 
     def before_api(self, w, ep, name):
         conn = ep.conn
@@ -444,6 +448,14 @@ class CongestionMonitor(netsim.Monitor):
             self.pto_fired[ep.name] += 1
 
     def after_pump(self, w, ep, cause, sent, new_events, timer):
+        from . import seams
+
+        if seams.DELIVERED_TWICE:
+            pn, epoch, ft, reports, hname = seams.DELIVERED_TWICE[0]
+            del seams.DELIVERED_TWICE[:]
+            raise netsim.Violation({"monitor": "recovery.frame_reported_twice", "handler": hname.lstrip("_")},
+                                   "a frame (type 0x%x, handler %s) of packet %d (epoch %d) was reported %s to its owner "
+                                   "(during %s of %s)" % (ft, hname, pn, epoch, " then ".join(reports), cause, ep.name))
         conn = ep.conn
         loss = conn._loss
         # ledger: bytes_in_flight equals the tracked in-flight packets
